@@ -498,6 +498,9 @@ var funcSubst = map[string]string{
 	"crypto/sha1.Sum":      "simrt.SHA1Sum",
 	"log.New":              "simrt.LogNew",
 	"golang.org/x/net/proxy.FromURL": "simrt.ProxyFromURL",
+	// the system call behind large piece buffers: a failure injected here
+	// happens inside alloc.Alloc (after whatever it did before the call)
+	"golang.org/x/sys/unix.Mmap": "simrt.Mmap",
 }
 
 var methodSubst = map[string]string{
